@@ -438,6 +438,15 @@ class DocGen:
                         if plain and r.random() < 0.35:
                             k2 = r.choice(plain)
                             extra["properties"][k2] = copy.deepcopy(inherited[k2][0])
+                        # ... or narrows the ITEMS of an inherited array (number -> integer, string -> date)
+                        arrays = [k2 for k2, (ps, rq) in inherited.items() if isinstance(ps, dict) and ps.get("type") == "array" and "prefixItems" not in ps
+                                  and ps.get("items") in ({"type": "number"}, {"type": "string"})]
+                        if arrays and r.random() < 0.4:
+                            k2 = r.choice(arrays)
+                            ps = copy.deepcopy(inherited[k2][0])
+                            ps["items"] = {"type": "integer"} if ps["items"] == {"type": "number"} else {"type": "string", "format": "date"}
+                            ps.pop("default", None)
+                            extra["properties"] = {k2: ps, **extra["properties"]}
                         # ... or NARROWS an inherited inline enum to a strict subset of its values
                         enums = [k2 for k2, (ps, rq) in inherited.items() if isinstance(ps, dict) and "$ref" not in ps and isinstance(ps.get("enum"), list)
                                  and len([v for v in ps["enum"] if v is not None]) >= 2 and None not in ps["enum"] and "default" not in ps]
